@@ -195,7 +195,7 @@ func (r *SpecReg) Build() {
 	}
 	for _, sd := range r.prog.Specs {
 		switch sd.Kind {
-		case "sumfold":
+		case "sumfold", "nnfold":
 			r.buildFold(sd)
 		case "define", "declare", "function":
 			r.buildDefine(sd)
@@ -342,6 +342,18 @@ func (r *SpecReg) buildFold(sd *SpecDecl) {
 	fmt.Fprintf(&e3, "(assert (and (> j 0) (<= j m)))\n(assert (= (%s c (+ n (- j 1))%s) (+ (%s c n%s) (%s b (- j 1)%s))))\n", smt, ex, smt, ex, smt, ex)
 	fmt.Fprintf(&e3, "(assert (not (= (%s c (+ n j)%s) (+ (%s c n%s) (%s b j%s)))))\n", smt, ex, smt, ex, smt, ex)
 	fn.Lemmas = append(fn.Lemmas, LemmaVC{Name: "lemma:" + name + ":concat-step", Body: e3.String()})
+	if sd.Kind == "nnfold" {
+		// non-negative fold: F(a,k) >= 0 for k >= 0, proved by induction (element terms must be >= 0)
+		fn.Decl += fmt.Sprintf("(assert (forall ((a %s) (k Int)%s) (! (=> (<= 0 k) (>= (%s a k%s) %s)) :pattern ((%s a k%s)))))\n", arrSort, exd, smt, ex, zero, smt, ex)
+		var nn strings.Builder
+		nn.WriteString(base)
+		fmt.Fprintf(&nn, "(declare-const a %s)\n(declare-const k Int)\n", arrSort)
+		for i := 1; i < len(sorts); i++ {
+			fmt.Fprintf(&nn, "(declare-const x%s %s)\n", sd.Params[i].Name, sorts[i].Name)
+		}
+		fmt.Fprintf(&nn, "(assert (> k 0))\n(assert (>= (%s a (- k 1)%s) %s))\n(assert (not (>= (%s a k%s) %s)))\n", smt, ex, zero, smt, ex, zero)
+		fn.Lemmas = append(fn.Lemmas, LemmaVC{Name: "lemma:" + name + ":nonneg-step", Body: nn.String()})
+	}
 	r.fns[name] = fn
 	r.order = append(r.order, fn)
 	r.folds[sl.Elem.Name] = append(r.folds[sl.Elem.Name], fn)
